@@ -13,7 +13,7 @@ import ast
 from sa.model import AnalysisError, FuncInfo
 from sa.ctx import Ctx, short, stmt_key, reaching_defs
 from sa.cfg import NORMAL, describe_path
-from sa.report import Report
+from sa.report import Report, section
 from sa import sql, pat
 from sa.util import fact_in
 
@@ -474,11 +474,11 @@ def run(ctx: Ctx, rep: Report, tier: str):
     except sql.SqlUndecided as e:
         rep.error("rule=C09.R1-R3 reason=undecided: %s" % e)
         rep.rule("C09.R1", "see DESIGN", 0) if "C09.R1" not in rep.rules else None
-    c.r4()
-    c.r5_r6()
-    c.r7()
-    c.r8()
-    c.r9()
+    section(rep, c.r4)
+    section(rep, c.r5_r6)
+    section(rep, c.r7)
+    section(rep, c.r8)
+    section(rep, c.r9)
     rep.rule("C09.R11", "each Storage method issues its own kind of statement (create: plain INSERT, update: UPDATE, delete: DELETE, read/read_all: SELECT) "
              "with no conflict clause (no INSERT OR REPLACE / upsert): an update can never create a row and a create can never overwrite one", expect_min=5)
     KIND = {"create": "insert", "update": "update", "delete": "delete", "read": "select", "read_all": "select"}
@@ -504,4 +504,4 @@ def run(ctx: Ctx, rep: Report, tier: str):
     from rules.common import data_rows_follow_storage
     rep.rule("C09.R12", "per-tag data (cursor, walk marker) behaves as one map entry: deleting the tag removes every stored row of it, writing it updates the "
              "stored row when there is one (the id cache is filled from storage first) - never a second row", 2)
-    data_rows_follow_storage(ctx, rep, "C09.R12")
+    section(rep, lambda: data_rows_follow_storage(ctx, rep, "C09.R12"))
